@@ -62,27 +62,137 @@ class EnumOracle(Oracle):
         return v
 
 
-def draw_distribution(s):
-    """exact law of s.draw() when each rng.integers(n) is uniform on its range and independent:
-    enumerate the tree of requests.  Returns ({outcome: Fraction}, max number of requests on a path)"""
+class Switch:
+    """installed once through vlib.oracle.install; every draw is then served by the oracle in .cur"""
+    cur = None
+
+    def integers(self, lo, hi=None):
+        return self.cur.integers(lo, hi)
+
+    def __getattr__(self, name):          # random / choice / shuffle are not used by DrawSet
+        return getattr(self.cur, name)
+
+
+_switch = Switch()
+
+
+def use(oracle):
+    import epydemic.bbt
+    _switch.cur = oracle
+    if epydemic.bbt.rng is not _switch:
+        install(_switch)
+    return oracle
+
+
+def _outcome(f):
+    try:
+        return ('elem', f())
+    except NeedInt:
+        raise
+    except Exception as ex:   # observable: e.g. AttributeError on a missing child
+        return ('raise', type(ex).__name__)
+
+
+def brute_distribution(s):
+    """exact law of s.draw() when each rng.integers(n) is uniform on its range and the calls are
+    independent, by enumerating every outcome of every call (no knowledge of the code at all;
+    the number of paths grows like n^log n, so only for small sets).
+    Returns ({outcome: Fraction}, max number of requests on a path)"""
     dist = {}
     deepest = 0
     stack = [((), Fraction(1))]
     while stack:
         prefix, w = stack.pop()
-        install(EnumOracle(prefix))
+        use(EnumOracle(prefix))
         try:
-            out = ('elem', s.draw())
+            out = _outcome(s.draw)
         except NeedInt as n:
-            width = n.hi - n.lo
             for i in range(n.lo, n.hi):
-                stack.append((prefix + (i,), w / width))
+                stack.append((prefix + (i,), w / (n.hi - n.lo)))
             continue
-        except Exception as ex:   # observable: e.g. AttributeError on a missing child
-            out = ('raise', type(ex).__name__)
         deepest = max(deepest, len(prefix))
         dist[out] = dist.get(out, Fraction(0)) + w
     return dist, deepest
+
+
+class Delegated:
+    """stands for 'whatever node.draw() returns': handed back by the instrumented TreeNode.draw
+    for a nested call, so that the law can be assembled bottom-up in O(n log n) draws"""
+
+    def __init__(self, node):
+        self.node = node
+
+
+def node_distribution(root):
+    """the same exact law for sets of any size: for every node enumerate only the outcomes of the
+    requests made by that node's own draw() frame; a nested child.draw() is cut off and replaced by
+    the child's (already computed) law, which is exact because the calls are independent and draw()
+    has no side effects.  If a result is not handed back unchanged the method does not apply and
+    None is returned (the caller then has only the brute-force enumeration)."""
+    from epydemic import TreeNode
+    orig = TreeNode.draw
+    depth = [0]
+
+    def cut(node):
+        if depth[0] > 0:
+            return Delegated(node)
+        depth[0] += 1
+        try:
+            return orig(node)
+        finally:
+            depth[0] -= 1
+    laws = {}          # id(node) -> (dist, deepest)
+    order = []
+
+    def post(n):
+        if n is None:
+            return
+        post(n._left); post(n._right); order.append(n)
+    post(root)
+    TreeNode.draw = cut
+    try:
+        for node in order:
+            dist = {}
+            deepest = 0
+            stack = [((), Fraction(1))]
+            while stack:
+                prefix, w = stack.pop()
+                use(EnumOracle(prefix))
+                try:
+                    out = _outcome(node.draw)
+                except NeedInt as n:
+                    for i in range(n.lo, n.hi):
+                        stack.append((prefix + (i,), w / (n.hi - n.lo)))
+                    continue
+                if out[0] == 'elem' and isinstance(out[1], Delegated):
+                    sub = laws.get(id(out[1].node))
+                    if sub is None:          # delegated to something that is not a descendant
+                        return None
+                    for o, p in sub[0].items():
+                        dist[o] = dist.get(o, Fraction(0)) + w * p
+                    deepest = max(deepest, len(prefix) + sub[1])
+                else:
+                    dist[out] = dist.get(out, Fraction(0)) + w
+                    deepest = max(deepest, len(prefix))
+            if any(isinstance(o[1], Delegated) for o in dist):
+                return None
+            laws[id(node)] = (dist, deepest)
+    finally:
+        TreeNode.draw = orig
+    return laws[id(root)]
+
+
+def draw_distribution(s):
+    """(law, deepest path, method).  Small sets: brute force, and the bottom-up law must agree with it."""
+    n = len(s)
+    brute = brute_distribution(s) if n <= 15 else None
+    fast = node_distribution(s._root)
+    if brute is not None:
+        # brute force is the ground truth; a disagreement is counted in the evidence (never seen)
+        return brute[0], brute[1], 'brute' if fast == brute else 'brute-only'
+    if fast is not None:
+        return fast[0], fast[1], 'bottom-up'
+    return None, 0, 'not-enumerable'
 
 
 def walk(root):
@@ -138,17 +248,24 @@ def instrument():
     TreeNode._rotate = counted
 
 
+# insertion orders of {0..7} after which deleting one element makes the rotation's nested repair fire
+# (bbt.py:243-246: left-heavy node whose left child is level; found by search, see RULE)
+NESTED_SEEDS = [((3, 2, 0, 5, 7, 6, 1, 4), 6), ((5, 7, 3, 2, 6, 0, 1, 4), 7), ((5, 6, 3, 7, 2, 1, 0, 4), 7),
+                ((2, 3, 1, 6, 5, 7, 0, 4), 7), ((1, 7, 6, 5, 2, 3, 0, 4), 6), ((6, 1, 2, 5, 7, 3, 0, 4), 6),
+                ((2, 6, 7, 0, 5, 3, 4, 1), 7), ((6, 2, 5, 7, 1, 3, 0, 4), 7)]
+
+
 class H(Harness):
     ID = 'C09'
     TIE_IMPORT = 'From EpyV Require Import Tie.C09 Model.Bbt.'
     CHECK_FN = 'EpyV.Tie.C09.check_case'
-    QUICK_N = 330
+    QUICK_N = 600
     THOROUGH_N = 4000
     CASE_TIMEOUT = 30
     ALLOWED_AXIOMS = set()
     RULE = ('operation sequences on one DrawSet: add / discard / remove / draw (scripted rng.integers) / in / iter; '
             'ints or int pairs; universe 4-200; length 1-150 (thorough 400); add-heavy then discard-heavy phases, duplicates, '
-            'absent removals, drain to empty and refill; exhaustive: all add/discard sequences of length 4 over 3 elements and '
+            'absent removals, drain to empty and refill, order-preserving copies of 8 seed histories on which the nested repair inside _rotate fires; exhaustive: all add/discard sequences of length 4 over 3 elements and '
             'length 3 with remove over 4 elements, all insertion orders x deletion orders of sets of size <= 4 '
             '(thorough: length 5 over 4 elements, sets of size <= 5); a case is non-trivial when the set reached size >= 3')
     TRUSTED = ['Coq 8.16.1 kernel incl. vm_compute', 'harness/c09.py and vlib (scripted rng.integers, tree dump through the private attributes of TreeNode)',
@@ -195,8 +312,17 @@ class H(Harness):
             else:
                 ops.append(['I', None])
 
-        style = rnd.choice(['phases', 'phases', 'drain', 'mixed'])
+        style = rnd.choice(['phases', 'phases', 'phases', 'drain', 'drain', 'mixed', 'mixed', 'nested'])
         split = int(n * rnd.choice([0.5, 0.6, 0.7]))
+        if style == 'nested' and len(uni) >= 8:
+            # an order-preserving copy of a seed that makes the nested repair of _rotate fire
+            seq, d = rnd.choice(NESTED_SEEDS)
+            lab = sorted(rnd.sample(sorted(uni), 8))
+            for x in seq:
+                emit('A', lab[x])
+            emit('D', lab[d])
+            n += 9
+            split += 9
         i = 0
         while len(ops) < n:
             i = len(ops)
@@ -268,6 +394,8 @@ class H(Harness):
                     c = case(ops)
                     c['dist_at'] = [m - 1] + ([m + 1 + m // 2] if m >= 3 else [])
                     out.append(c)
+        for seq, d in NESTED_SEEDS:
+            out.append(case([['A', x] for x in seq] + [['D', d], ['Dr', [3, 1, 4, 1, 5]], ['I', None]], dist=True))
         return out
 
     # ------------------------------------------------------------------ implementation side
@@ -281,6 +409,7 @@ class H(Harness):
         steps = []
         universe = sorted({elem(o[1]) for o in case['ops'] if o[0] in ('A', 'D', 'R', 'M')})
         maxsize = 0
+        methods = {}
         for i, (k, arg) in enumerate(case['ops']):
             st = {'reqs': [], 'ints': []}
             try:
@@ -294,7 +423,7 @@ class H(Harness):
                     except KeyError:
                         st['res'] = ['KeyError']
                 elif k == 'Dr':
-                    orc = install(Oracle(seed=0, script={'integers': arg}))
+                    orc = use(Oracle(seed=0, script={'integers': arg}))
                     try:
                         e = s.draw()
                         st['res'] = ['drew', e]
@@ -327,16 +456,19 @@ class H(Harness):
                 except Exception as ex:
                     st['iter'] = ['exception', type(ex).__name__]
                     st['members'] = []
-            if i in dist_at and 0 < n <= 128:
-                dist, deepest = draw_distribution(s)
-                st['dist'] = [[list(o), str(p)] for o, p in sorted(dist.items(), key=lambda kv: repr(kv[0]))]
-                st['dist_depth'] = deepest
+            if i in dist_at and s._root is not None:
+                dist, deepest, how = draw_distribution(s)
+                methods[how] = methods.get(how, 0) + 1
+                if dist is not None:
+                    st['dist'] = [[list(o), str(p)] for o, p in sorted(dist.items(), key=lambda kv: repr(kv[0]))]
+                    st['dist_depth'] = deepest
             steps.append(st)
         return {'steps': steps, 'universe': universe, 'maxsize': maxsize,
                 'stats': {'ops': len(steps), 'rotations': _counts['rot'] - before['rot'],
                           'nested_rotations': _counts['nested'] - before['nested'],
                           'draws': sum(1 for o in case['ops'] if o[0] == 'Dr'),
-                          'distributions_enumerated': sum(1 for st in steps if 'dist' in st),
+                          'laws_brute_force': methods.get('brute', 0), 'laws_bottom_up': methods.get('bottom-up', 0),
+                          'laws_methods_disagree': methods.get('brute-only', 0), 'laws_not_enumerable': methods.get('not-enumerable', 0),
                           'pair_cases': 1 if case['kind'] == 'pair' else 0}}
 
     # ------------------------------------------------------------------ D
